@@ -368,6 +368,55 @@ def content_is_latest(h, sym, ramp, F):
     return msgs
 
 
+def direct_keys(h, sym, ramp):
+    """keys of the direct-oracle failures of a lifecycle history (as in run_C19, without the model)"""
+    W = World(sym, ramp)
+    shadow = Shadow()
+    keys = set()
+    for oi, op in enumerate(h):
+        r = W.apply(op)
+        shadow.apply(op, r)
+        if op[0] == "tofun":
+            must_raise = shadow.must_raise(W)
+            if r.startswith("function"):
+                F = W.last_F
+                if must_raise:
+                    keys.add("C19:returned:" + must_raise.split(":")[0])
+                if F.has_free():
+                    keys.add("C19:free")
+                for msg in reflects_last_step(W, F) + content_is_latest(h[:oi + 1], sym, ramp, F):
+                    keys.add("C19:stale:" + msg.split(":")[0])
+            elif r != "RuntimeError":
+                keys.add("C19:error-class")
+    return keys
+
+
+def shrink(failure):
+    key = failure.get("key")
+    if "history" not in failure or not key:
+        return failure
+    sym, ramp = failure.get("sym", "SX"), failure.get("ramp", "metered")
+    h = [tuple(op) for op in failure["history"]]
+    try:
+        if key not in direct_keys(h, sym, ramp):
+            return failure
+        changed = True
+        while changed:
+            changed = False
+            for i in range(len(h) - 1):           # (the final to_function stays)
+                h2 = h[:i] + h[i + 1:]
+                if key in direct_keys(h2, sym, ramp):
+                    h = h2
+                    changed = True
+                    break
+    except Exception:
+        return failure
+    if len(h) < len(failure["history"]):
+        failure = dict(failure, history=h, shrunk_from=len(failure["history"]),
+                       what=failure["what"] + f"  [minimised history: {h}]")
+    return failure
+
+
 def replay(failure):
     import json
     print(json.dumps(failure, indent=1, default=str)[:3000])
